@@ -955,7 +955,7 @@ def exIntRow : Conv := .scalar "int" [.int] .viaCtor "an int" "ints"
 def exExt : Ext where
   call := fun _ v => .ok v
   cond := fun _ _ _ => .ok true
-  hook := fun _ fs => .ok fs
+  hook := fun _ fs _ => .ok fs
   factory := fun _ => .none
   pyStr := fun _ => "?"
   customTry := fun id v =>
